@@ -14,7 +14,7 @@ ASSUMPTIONS = [
     "numpy storage replaced by dtype=object arrays",
 ]
 BOUNDS = {
-    "quick": "structures pair, chain-3, pair+variable cost, chain-3+variable cost, triangle, each optionally with one external variable bound by a binary constraint; every complete assignment (choice) and every non-empty set of missing variables (choice)",
+    "quick": "structures pair, chain-3, pair+variable cost, chain-3+variable cost, triangle, each optionally with one external variable bound by a binary constraint; every complete assignment (choice; evaluated a second time from the same dict after the external variable changed) and every non-empty set of missing variables (choice)",
     "thorough": "quick + ternary, star-3, domain 3",
 }
 OUTSIDE = "more than 4 variables + 1 external, float finite costs, assignments with unknown extra keys"
@@ -86,11 +86,23 @@ def run(eng, p):
     mode = eng.pick(["complete", "incomplete", "assignment_cost"], "mode")
     eng.notes["outcome"] = {"mode": mode, "asg": asg}
     if mode == "complete":
-        hard, soft = dcop.solution_cost(dict(asg), infinity)
+        mine = dict(asg)            # the caller's own dict, reused for the second call below
+        hard, soft = dcop.solution_cost(mine, infinity)
         exp_hard = F.sum([F.ite(_is_inf(t, infinity), 1, 0) for t in terms])
         exp_soft = F.sum([F.ite(_is_inf(t, infinity), 0, t) if not _cinf(t) else 0 for t in terms])
         eng.prove(F.and_(F.eq(hard, exp_hard), F.eq(soft, exp_soft)),
                   "solution_cost != (count of terms equal to infinity, sum of the other terms)", detail=str(asg))
+        eng.prove(mine == asg, "solution_cost modified the caller's assignment", detail=str((mine, asg)))
+        if p["ext"]:
+            # the external variable changes, the same assignment is evaluated again
+            ev.value = 1 - ext_pre
+            terms2 = list(terms)
+            terms2[len(inst.scopes)] = tab[(inst.domains[first].index(asg[first]), ev.value)]
+            hard2, soft2 = dcop.solution_cost(mine, infinity)
+            exp_hard2 = F.sum([F.ite(_is_inf(t, infinity), 1, 0) for t in terms2])
+            exp_soft2 = F.sum([F.ite(_is_inf(t, infinity), 0, t) if not _cinf(t) else 0 for t in terms2])
+            eng.prove(F.and_(F.eq(hard2, exp_hard2), F.eq(soft2, exp_soft2)),
+                      "solution_cost after a change of the external variable does not use its current value", detail=str(asg))
     elif mode == "incomplete":
         k = eng.choose(2 ** len(names) - 1, "missing") + 1
         missing = [v for i, v in enumerate(names) if (k >> i) & 1]
